@@ -189,6 +189,25 @@ def main(tier):
         for c in cs:
             if any(s["op"] in ("TProd", "Contract", "MultiContract", "LeviCivita", "NormSq", "Convolve") for s in c["hist"]):
                 chk.distinct.add(core.chash([n, c["hist"], c["g"]]))
+    # ---- the enumeration of distinct contractions (geom.get_contraction_indices) against Contractions.tla -------------
+    cc = dict(MaxK=5 if tier == "quick" else 7)
+    r = tlc.run("Contractions.tla", tlc.make_cfg(constants=cc, invariants=["Laws", "Emit"]), constants=cc, workers=4, coverage=True, timeout=3000)
+    chk.add_tlc(r, vacuity_actions=("Pick",))
+    if not r.ok:
+        chk.spec_violation(r, "number of distinct contractions differs from the closed formula in the specification")
+    import ginjax.geometric as geom
+    for cs in r.cases:
+        chk.evaluations += 1
+        chk.traces += 1
+        want = {frozenset(frozenset(pr) for pr in S) for S in cs["sets"]}
+        try:
+            got_list = geom.get_contraction_indices(cs["k"], cs["kf"])
+            got = [frozenset(frozenset(pr) for pr in idx) for idx in got_list]
+            if len(got) != len(set(got)) or set(got) != want or any(len(pr) != 2 for idx in got_list for pr in idx):
+                chk.report({"op": "get_contraction_indices", "what": "does not enumerate each distinct contraction exactly once",
+                            "k": cs["k"], "kf": cs["kf"], "expected_count": cs["count"], "observed_count": len(got_list)})
+        except Exception as ex:
+            chk.report({"op": "get_contraction_indices", "what": "raised %s: %s" % (type(ex).__name__, str(ex)[:200]), "k": cs["k"], "kf": cs["kf"]})
     c = all_cases[0][1][len(all_cases[0][1]) // 2]
     chk.samples = [{"program": c["hist"], "g": c["g"], "result_type": [c["reg"][-1]["k"], c["reg"][-1]["p"]], "result": c["reg"][-1]["val"][:16],
                     "twin_result": c["twin"][-1]["val"][:16]}]
